@@ -14,7 +14,7 @@ import (
 // reported under "late"). The Lean driver replays the same ops on the model (two `MuxSt`
 // joined by wires) and accepts or rejects every single result.
 type Op struct {
-	Op   string `json:"op"` // open dial listen accept acceptbg lclose write read readbg closeconn closemux cut
+	Op   string `json:"op"` // open dial listen accept acceptbg lclose write read readbg join closeconn closemux cut
 	End  int    `json:"end"`
 	H    int    `json:"h"`  // conn handle (index of the conn object at that end) / listener index
 	ID   uint32 `json:"id"` // open/dial/listen
@@ -220,6 +220,30 @@ func RunScript(in ScriptIn) ScriptObs {
 		case "cut":
 			e.tap.CutAfter(op.K)
 			obs.Res[i] = Res{R: "ok"}
+			continue
+		case "join":
+			// wait for the background op issued as op number K
+			found := -1
+			for pi, p := range pending {
+				if p.op == op.K {
+					found = pi
+				}
+			}
+			if found < 0 {
+				obs.Res[i] = Res{R: "err", Err: "badop"}
+				continue
+			}
+			select {
+			case r := <-pending[found].ch:
+				if r.R == "conn" && r.H == -1 {
+					r.H = e.handleByKey(r.N)
+					r.N = 0
+				}
+				obs.Res[i] = r
+				pending = append(pending[:found], pending[found+1:]...)
+			case <-time.After(wait):
+				obs.Res[i] = Res{R: "blocked"}
+			}
 			continue
 		default:
 			obs.Res[i] = Res{R: "err", Err: "badop"}
